@@ -360,7 +360,11 @@ func (s *Sched) nextChoice(n int, en []*Thread, meEnabled bool) int {
 	if i < len(s.prefix) {
 		pick = s.prefix[i]
 		if pick >= n || (i < len(s.prefixN) && s.prefixN[i] != n) {
-			s.diverge(fmt.Sprintf("choice %d: replay wants option %d of %d, execution offers %d", i, pick, s.prefixNAt(i), n))
+			var names []string
+			for _, t := range en {
+				names = append(names, fmt.Sprintf("T%d(%s)@%s", t.ID, t.Name, t.pend.site))
+			}
+			s.diverge(fmt.Sprintf("choice %d: replay wants option %d of %d, execution offers %d: %v", i, pick, s.prefixNAt(i), n, names))
 			if pick >= n {
 				pick = 0
 			}
